@@ -1,5 +1,6 @@
 //! E3 `conc`: multi-threaded history recorder + offline checkers. Serves C05, C15, C18.
 
+mod c02;
 mod c05;
 mod c11;
 mod c12;
@@ -66,6 +67,17 @@ fn spec_for(prop: &str, _tier: Tier) -> Option<Spec> {
 		.require("deferred_commits", 5)
 		.require("completion_checks", 10)
 		.budget(45, 600),
+		"C02" => Spec::new(
+			"C02",
+			"exploration",
+			"Threaded half ('kill -9 under load'): a case is one directory on which a child process runs the deterministic transaction sequence T1, T2, ... (hash + btree column, values of 8 B - 80 KiB, removals, one layout in three with identity-hashed keys of one index page so that the index grows) against LIVE background workers with seeded delays at the yield hooks, publishing 'started i' / 'acknowledged i' through shared memory, and is killed with SIGKILL after 2 ms - 0.9 s (1-3 rounds per directory, each continuing at the recovered prefix); in half of the rounds another process then starts the recovery and is killed 0-30 ms into it (once or twice). The parent opens the directory: open must succeed without panic and the state must equal S_m for some m <= started (all 220 keys of the generator's universe compared); finally a continuation (more transactions, clean restart) must match the model re-based at S_m. evaluations = prefix checks + continuation reads; distinct_nontrivial = distinct (always_flush, index growth, kills during recovery, everything / proper prefix recovered) classes.",
+		)
+		.require("kills_under_load", 40)
+		.require("prefix_checks", 40)
+		.require("kills_during_recovery", 3)
+		.require("continuation_checks", 20)
+		.require("recovered_proper_prefix", 3)
+		.budget(40, 400),
 		"C12" => Spec::new(
 			"C12",
 			"exploration",
@@ -137,6 +149,7 @@ fn shard(ctx: &Ctx, rep: &mut Report) {
 
 fn run_one(ctx: &Ctx, rep: &mut Report, case_seed: u64, variant: u64) {
 	match ctx.prop.as_str() {
+		"C02" => c02::run_case(ctx, rep, case_seed, variant),
 		"C05" => c05::run_case(ctx, rep, case_seed, variant),
 		"C11" => c11::run_case(ctx, rep, case_seed, variant),
 		"C12" => c12::run_case(ctx, rep, case_seed, variant),
@@ -152,6 +165,9 @@ fn main() {
 	let a: Vec<String> = std::env::args().collect();
 	if a.len() > 1 && a[1] == "--c18-child" {
 		c18::child_main(&a[2..]);
+	}
+	if a.len() > 1 && a[1] == "--c02-child" {
+		c02::child_main(&a[2..]);
 	}
 	main_entry(spec_for, shard)
 }
